@@ -201,21 +201,32 @@ def run(ctx, crate):
                   example="pragma solidity 0.0.0;"))
     # the triple is (first, second, third) component, each parsed as i32
     okv = False
+    comp_sorted = sorted(comp_calls, key=lambda s_: vb.rpo_idx.get(s_.bb, 0))
+    expected = []
+    for s_ in comp_sorted:
+        r = s_.result
+        r = core.mk_proj(core.mk_proj(r, ("dc", "Some")), ("f", 0, "0"))
+        r = core.mk_proj(core.mk_proj(r, ("dc", "Ok")), ("f", 0, "0"))
+        expected.append(show(r))
+    got_triple = None
     for g, v in somes:
         if v[0] == "agg" and v[2].endswith("Option::Some") and v[3] and v[3][0][0] == "agg" and v[3][0][1] == "tuple" and len(v[3][0][3]) == 3:
-            comps = v[3][0][3]
-            sites_ = []
-            for cterm in comps:
-                base = T.strip_unwrap(T.strip_unwrap(cterm))
-                # each component is the Ok payload of the Some payload of a distinct next() call
-                calls = [x for x in T.subterms(cterm) if x[0] == "opt" or (x[0] == "call" and x[1] == "std::iter::Iterator::next")]
-                sites_.append(show(cterm))
-            order = [vb.rpo_idx.get(s.bb, 0) for s in comp_calls]
-            okv = len(set(sites_)) >= 1 and order == sorted(order)
+            got_triple = [show(x) for x in v[3][0][3]]
+            # sites differ although the rendered strings coincide: compare the terms' call sites through identity of the rendered unwrapped results
+            terms = list(v[3][0][3])
+            okv = len(comp_sorted) == 3
+            for cterm, s_ in zip(terms, comp_sorted):
+                r = s_.result
+                r = core.mk_proj(core.mk_proj(r, ("dc", "Some")), ("f", 0, "0"))
+                r = core.mk_proj(core.mk_proj(r, ("dc", "Ok")), ("f", 0, "0"))
+                if cterm != r:
+                    okv = False
     clo = [b for p_, b in crate.bodies.items() if p_.startswith(VERSION_FN + "::{closure")]
     okc = len(clo) == 1 and T.is_call(clo[0].val_local(0), "parse::<i32>") and clo[0].val_local(0)[2] and clo[0].val_local(0)[2][0] == ("param", 2)
-    obs.append(Ob("R09.pragma", VERSION_FN, "the triple is the three components in order, each parsed as i32", bool(okv and okc),
-                  found="components parsed by %s" % (show(clo[0].val_local(0))[:60] if clo else None)))
+    obs.append(Ob("R09.pragma", VERSION_FN, "the triple is the three components in order, each parsed as i32, unmodified", bool(okv and okc),
+                  expected="Some((c1, c2, c3)) with ci the i-th parsed component", found="%s ; components parsed by %s" % (
+                      [x[-50:] for x in (got_triple or [])], show(clo[0].val_local(0))[:60] if clo else None),
+                  example="pragma solidity >0.8.3;"))
     # search is over all pragma directives of the file, in order, first match wins (single directive by the quantifier)
     ss = S.call_sites(vb)
     srch = [s for s in ss if s.path.endswith("extract_target_from_node")]
